@@ -1,0 +1,54 @@
+package internal
+
+import (
+	"testing"
+	"time"
+
+	"github.com/stretchr/testify/require"
+)
+
+// An entry must be expired close to its deadline whatever wheel level it was
+// filed on: not before the deadline, and no later than one finest tick
+// (~1.07s) plus one advance period after it.
+func TestTimerWheel_CoarseLevelExpireOnTime(t *testing.T) {
+	second := time.Second.Nanoseconds()
+	slack := 1100 * time.Millisecond.Nanoseconds()
+
+	// ttl in seconds, one or more per wheel level
+	ttls := []int64{5, 69, 100, 4700, 150000, 600000}
+	// wheel time when the entry is scheduled
+	starts := []int64{0, 40 * second, 3000 * second, 123457 * second}
+
+	for _, start := range starts {
+		for _, ttl := range ttls {
+			tw := NewTimerWheel[string, string](1000)
+			tw.nanos += start
+			begin := tw.nanos
+			deadline := begin + ttl*second
+			entry := NewEntry("k", "", 1, deadline)
+			tw.schedule(entry)
+
+			expiredAt := int64(-1)
+			for now := begin + second; now <= deadline+3*second; now += second {
+				tw.advance(now, func(e *Entry[string, string], reason RemoveReason) {
+					require.Equal(t, EXPIRED, reason)
+					expiredAt = now
+				})
+				if expiredAt >= 0 {
+					break
+				}
+				if entry.meta.wheelPrev == nil {
+					t.Fatalf("start %ds ttl %ds: entry lost", start/second, ttl)
+				}
+				if now >= deadline+slack {
+					t.Fatalf(
+						"start %ds ttl %ds: still scheduled %dms after deadline",
+						start/second, ttl, (now-deadline)/1e6,
+					)
+				}
+			}
+			require.GreaterOrEqual(t, expiredAt, deadline, "start %ds ttl %ds", start/second, ttl)
+			require.Nil(t, entry.meta.wheelPrev)
+		}
+	}
+}
